@@ -1094,4 +1094,127 @@ message U5 {
 }
 `},
 	},
+	{
+		// Members that are dropped because a type they cannot exist without is excluded, each carrying
+		// a custom option that NOTHING else uses (round 5): the option definition, its message type, its
+		// Any payload, their files and the imports of those files must go with the member. One option
+		// per member kind, spread over three option files plus a payload file (all import files, so
+		// that nothing keeps them but a reference), next to a sibling option (o.kept) that survives:
+		//
+		//	p.M.bad       plain field of p.Bad                       (o.plain)      o/plain.proto
+		//	p.M.bads      map<string, p.Bad>       (message value)   (o.mapmsg = Note{Any pay.P})  o/map.proto, pay.proto
+		//	p.M.bes       map<string, p.BadE>      (enum value)      (o.mapenum)    o/map.proto
+		//	p.M.inners    map<string, p.Bad.Inner> (nested in the excluded message) (o.mapnested)  o/map.proto
+		//	p.M.alt       oneof whose only member has type p.Bad     (o.oneof, member: o.member)   o/plain.proto
+		//	p.xbad        extension of p.Base with type p.Bad        (o.xopt)       o/plain.proto
+		//	p.M.ss        map<string, string>                        (o.kept)       o/kept.proto
+		Name:    "dropped-member-options",
+		Covers:  []string{"custom option used only by a plain field / map field (message, enum, nested value) / oneof / extension that is dropped with its excluded type", "option message with Any payload used only by a dropped map field", "option files as import files"},
+		Targets: []string{"a.proto", "b.proto"},
+		Files: map[string]string{
+			"o/map.proto": `syntax = "proto3";
+package o;
+import "google/protobuf/any.proto";
+import "google/protobuf/descriptor.proto";
+// L:o.Note
+message Note {
+  string text = 1;
+  google.protobuf.Any any = 2;
+}
+extend google.protobuf.FieldOptions {
+  // L:o.mapmsg
+  Note mapmsg = 50001;
+  // L:o.mapenum
+  string mapenum = 50002;
+  // L:o.mapnested
+  string mapnested = 50003;
+}
+`,
+			"o/plain.proto": `syntax = "proto3";
+package o;
+import "google/protobuf/descriptor.proto";
+extend google.protobuf.FieldOptions {
+  // L:o.plain
+  string plain = 50011;
+  // L:o.member
+  string member = 50012;
+  // L:o.xopt
+  string xopt = 50013;
+}
+extend google.protobuf.OneofOptions {
+  // L:o.oneof
+  string oneof = 50014;
+}
+`,
+			"o/kept.proto": `syntax = "proto3";
+package o;
+import "google/protobuf/descriptor.proto";
+extend google.protobuf.FieldOptions {
+  // L:o.kept
+  string kept = 50021;
+}
+`,
+			"pay.proto": `syntax = "proto3";
+package pay;
+// L:pay.P
+message P {}
+`,
+			"a.proto": `syntax = "proto3";
+package p;
+import "o/kept.proto";
+import "o/map.proto";
+import "o/plain.proto";
+import "pay.proto";
+// L:p.Bad
+message Bad {
+  // L:p.Bad.b
+  string b = 1;
+  // L:p.Bad.Inner
+  message Inner {}
+}
+// L:p.BadE
+enum BadE {
+  BAD_E_ZERO = 0;
+}
+// L:p.M
+message M {
+  // L:p.M.name
+  string name = 1;
+  // L:p.M.bad
+  Bad bad = 2 [(o.plain) = "only here"];
+  // L:p.M.bads
+  map<string, Bad> bads = 3 [(o.mapmsg) = {
+    text: "only here"
+    any: { [type.googleapis.com/pay.P]: {} }
+  }];
+  // L:p.M.bes
+  map<string, BadE> bes = 4 [(o.mapenum) = "only here"];
+  // L:p.M.inners
+  map<string, Bad.Inner> inners = 5 [(o.mapnested) = "only here"];
+  // L:p.M.ss
+  map<string, string> ss = 6 [(o.kept) = "stays"];
+  // L:p.M.alt
+  oneof alt {
+    option (o.oneof) = "only here";
+    // L:p.M.via
+    Bad via = 7 [(o.member) = "only here"];
+  }
+  // L:p.M.last
+  string last = 8;
+}
+`,
+			"b.proto": `syntax = "proto2";
+package p;
+import "a.proto";
+import "o/plain.proto";
+// L:p.Base
+message Base {
+  extensions 100 to 200;
+}
+extend Base {
+  // L:p.xbad
+  optional Bad xbad = 100 [(o.xopt) = "only here"];
+}
+`},
+	},
 }
